@@ -439,9 +439,15 @@ def summarize(project, func, depth=0):
     cache[key] = eff
     aliases = {}  # loop var -> iterated param
     for n in own_nodes(func.node):
+        it_ = getattr(n, "iter", None)
+        # a snapshot of the list (list(ws), tuple(ws), ws[:], reversed(ws), sorted(ws)) walks the same workers
+        if isinstance(it_, ast.Call) and isinstance(it_.func, ast.Name) and it_.func.id in ("list", "tuple", "reversed", "sorted") and len(it_.args) == 1 and not it_.keywords:
+            it_ = it_.args[0]
+        elif isinstance(it_, ast.Subscript) and isinstance(it_.slice, ast.Slice) and it_.slice.lower is None and it_.slice.upper is None and it_.slice.step is None:
+            it_ = it_.value
         if isinstance(n, (ast.For, ast.comprehension)) and isinstance(n.target, ast.Name) \
-                and isinstance(n.iter, ast.Name) and n.iter.id in eff:
-            aliases[n.target.id] = n.iter.id
+                and isinstance(it_, ast.Name) and it_.id in eff:
+            aliases[n.target.id] = it_.id
     # only statements from which the helper can still return normally count: an effect that is
     # always followed by a raise (e.g. "set the flag, then raise") is not an effect of a normal return
     cfg = CFG(func.node)
